@@ -196,6 +196,13 @@ Definition model_cstream (w : option (list fld)) (i : option idf) (e : option eq
            (before : list fop) (ro : fro) (after : list fop) : list (cchange fmsg) * cstate fmsg :=
   let '(s1, _) := run_c i w c_init before in
   let '(s2, outs) := run_c i w s1 after in
+  (* the held-map model: Collection.Pull since /repo 3a50d70 (= pull_collection without an equivalence) *)
+  (pull_collection_held fr_filter (option_map interp_eqv e) s1 (to_ropts ro) (events_of outs), s2).
+(* the code before 3a50d70 (each change's old against its new value) *)
+Definition model_cstream_v0 (w : option (list fld)) (i : option idf) (e : option eqv)
+           (before : list fop) (ro : fro) (after : list fop) : list (cchange fmsg) * cstate fmsg :=
+  let '(s1, _) := run_c i w c_init before in
+  let '(s2, outs) := run_c i w s1 after in
   (pull_collection fr_filter (option_map interp_eqv e) s1 (to_ropts ro) (events_of outs), s2).
 
 Definition model_vstream (w : option (list fld)) (initial : option fmsg) (e : option eqv)
@@ -331,6 +338,30 @@ Fixpoint vtimes_ok (lastclk : Z) (ops : list fvop) (codes : list Z) (evs : list 
   | _, _ => true
   end.
 
+
+(* with an equivalence the subscriber's folded view equals the listing UP TO the equivalence, id by
+   id (every executed equivalence tells a value from nothing, so an item is in the one iff it is in
+   the other); [skip] = an id left out of the comparison *)
+Definition equiv_map_except (skip : option string) (ev : option fmsg -> option fmsg -> bool)
+           (a b : list (string * fmsg)) : bool :=
+  forallb (fun id => match skip with
+                     | Some k => if String.eqb id k then true else ev (view_lookup id a) (view_lookup id b)
+                     | None => ev (view_lookup id a) (view_lookup id b)
+                     end) (map fst a ++ map fst b).
+Definition equiv_map := equiv_map_except None.
+
+(* no delivered change carries a new value equivalent to what the subscriber holds for the id: the
+   new value of the last event it received for it (the seed included), nothing after a REMOVE; for
+   an id it has received nothing for, the old value the change itself carries *)
+Fixpoint held_ok (ev : option fmsg -> option fmsg -> bool) (view : list (string * fmsg)) (l : list ochange) : bool :=
+  match l with
+  | [] => true
+  | o :: r =>
+      (if oc_seed o then true
+       else negb (ev (match view_lookup (oc_id o) view with Some v => Some v | None => oc_old o end) (oc_new o))) &&
+      held_ok ev (apply_change view (to_cc o)) r
+  end.
+
 (* C04 on the observed stream.  Without include / equivalence: an exact edit script — seeds first
    (sorted, flagged, exactly the final one last-seed), exactly one event per successful write and
    none for failed ones, per-id old/new chain, and the folded view is the final listing. *)
@@ -372,8 +403,14 @@ Definition C04_ok (c : rcase) : bool :=
        | None => true
        end) &&
       (match e with
+       | Some ev => held_ok (interp_eqv ev) [] stream
+       | None => true
+       end) &&
+      (match e with
        | None | Some EqAll => if r_updates_only ro then true else same_map (fold_view (map to_cc stream)) final
-       | Some _ => true
+       | Some ev =>
+           (* any other equivalence, with or without include: fold = List up to the equivalence per id *)
+           if r_updates_only ro then true else equiv_map (interp_eqv ev) (fold_view (map to_cc stream)) final
        end)
   | CaseCPullID w i e before ro id after stream closed =>
       (* seeds (at most one, for this id) first; nothing is flagged seed after an update *)
@@ -425,6 +462,9 @@ Definition C08_ok (c : rcase) : bool :=
   match c with
   | CaseCPull w i None before ro after codes witness stream final =>
       if r_updates_only ro then true else same_map (fold_view (map to_cc stream)) final
+  | CaseCPull w i (Some ev) before ro after codes witness stream final =>
+      (* with an equivalence: the same up to the equivalence, id by id *)
+      if r_updates_only ro then true else equiv_map (interp_eqv ev) (fold_view (map to_cc stream)) final
   | CaseFold _ stream final => same_map (fold_view (map to_cc stream)) final
   | _ => true
   end.
